@@ -429,7 +429,11 @@ func (s *session) newManifest(rec *sessionRecord, v *version) (err error) {
 				s.manifestWriter.Close()
 			}
 			if !s.manifestFd.Zero() {
-				err = s.stor.Remove(s.manifestFd)
+				// The new manifest is current already: failing to remove
+				// the old one does not fail the commit.
+				if rerr := s.stor.Remove(s.manifestFd); rerr != nil {
+					s.logf("manifest@remove removing @%d %q", s.manifestFd.Num, rerr)
+				}
 			}
 			s.manifestFd = fd
 			s.manifestWriter = writer
